@@ -645,6 +645,29 @@ class Evaluator:
             c.v(deriv, "value", f"{deriv} differs from the record walk at (row, got, expected, situation, kind): {bad}",
                 bad)
 
+    def _individual_independence(self, deriv, fn, full):
+        """A per-individual derivation: what it gives for the records of one individual must not depend on the records of
+        another individual - computed on the dataset of that individual alone it must give the same values (this also
+        judges the records the reference walk leaves open, e.g. those before an individual's first dose)."""
+        v, c = self.v, self.c
+        inds = list(v.individuals())
+        if len(inds) < 2:
+            return
+        m, d = self.model()
+        for _, idxs in inds[1:]:
+            try:
+                sub = d.iloc[idxs].reset_index(drop=True).copy()
+                alone = _lst(fn(m.replace(dataset=sub)))
+            except Exception:
+                c.hit(f"{deriv}_alone_refused")
+                continue
+            c.hit(f"{deriv}_individual_independence")
+            whole = [full[i] for i in idxs]
+            if len(alone) != len(whole) or not all(_same(a, b) for a, b in zip(alone, whole)):
+                c.v(deriv, "value", f"{deriv} of the records {idxs} of one individual is {whole} within the dataset but {alone} for that "
+                                    f"individual alone: it depends on another individual's records")
+                return
+
     def _dropped_typed(self, typ):
         return any(col["drop"] and col["type"] == typ for col in self.spec["columns"])
 
@@ -673,6 +696,7 @@ class Evaluator:
                 c.v("admid", "type", f"get_admid returned {type(res).__name__} of length {getattr(res, 'size', None)}")
             else:
                 self._judge_per_record("admid", _lst(res), ref, "admid")
+                self._individual_independence("admid", pm.get_admid, _lst(res))
         if self._dropped_typed("admid"):
             c.hit("not_judged:add_admid-with-dropped-admid-column")
             return
